@@ -17,6 +17,8 @@ func realMain() {
 	prop := flag.String("prop", "", "property id")
 	tier := flag.String("tier", "quick", "tier")
 	runs := flag.Int("runs", 8, "runs per scenario")
+	shard := flag.Int("shard", 0, "this process runs the scenarios whose index is congruent to shard modulo of")
+	of := flag.Int("of", 1, "number of shards")
 	flag.Parse()
 	type out struct {
 		Scenarios int    `json:"scenarios"`
@@ -26,20 +28,24 @@ func realMain() {
 		Conformed int    `json:"runs_whose_outcome_was_explored"`
 		Violation string `json:"violation,omitempty"`
 		Case      string `json:"case,omitempty"`
+		Busy      string `json:"last_goroutine_not_at_rest,omitempty"`
 	}
 	var o out
 	for _, p := range props() {
 		if p.ID != *prop {
 			continue
 		}
-		for _, s := range scenarioTables[*prop](*tier) {
-			if s.RealDone == nil {
+		for idx, s := range scenarioTables[*prop](*tier) {
+			if s.RealDone == nil || idx%*of != *shard {
 				continue
 			}
 			o.Scenarios++
 			n, v := s.RunReal(*runs)
 			o.Runs += n
 			o.Timeouts, o.Compared, o.Conformed = e1lib.Timeouts, e1lib.Compared, e1lib.Conformed
+			if o.Timeouts > 0 {
+				o.Busy = e1lib.LastBusy
+			}
 			if o.Timeouts >= 3 || e1lib.Abandoned {
 				break // the machine is too busy for this auxiliary pass to be useful
 			}
